@@ -202,9 +202,19 @@ def sanitizer_replays(ctx):
     for v in ("astd", "tok"):
         n += san.asan(ctx, v, lambda c: san.writer_script(rng, c, 500, 200000), work, f"writers-{v}")
     n += san.memcheck(ctx, "astd", lambda c: san.writer_script(rng, c, 200, gen.MIB), work, "writers-mmap")
-    for shard in range(4):
-        n += san.miri(ctx, "miri-tok", lambda c: san.writer_script(rng, c, 30, 20000), work, f"writers-miri{shard}")
-    n += san.miri(ctx, "miri-sync", lambda c: san.writer_script(rng, c, 60, 20000, modes=("sync",)), work, "writers-mirisync")
+    # Miri interprets every hashed byte: small payloads, several shards side by side
+    import random as _random
+    from .. import crash as _crash
+    jobs = [("miri-tok", 25, 3000, ("sync", "async"), f"writers-miri{shard}") for shard in range(6)] + \
+           [("miri-sync", 40, 3000, ("sync",), f"writers-mirisync{shard}") for shard in range(2)]
+    seeds = [rng.getrandbits(32) for _ in jobs]
+
+    def shard(job_seed):
+        (variant, cnt, mx, ms, label), sd = job_seed
+        r2 = _random.Random(sd)
+        return san.miri(ctx, variant, lambda c: san.writer_script(r2, c, cnt, mx, modes=ms), work, label)
+
+    n += sum(_crash.pmap(shard, list(zip(jobs, seeds)), workers=8))
     ctx.extra["sanitizer_replay_ops"] = n
 
 
